@@ -56,6 +56,10 @@ def run(r):
             r.count("roundtrip:" + rec["target"] + (":" + ".".join(map(str, rec["version"])) if rec["target"] == "corpus" and "version" in rec else ""))
             if "skip" in rec:
                 continue
+            if "load_error" in rec:
+                r.violation({"component": "load_module", "record": rec, "why": "a valid bytecode file (corpus file, file compiled by an installed interpreter, or such a file under "
+                             "another magic with the same code-object layout) could not be loaded at all, so it cannot be written back either"})
+                continue
             vt = tuple(rec.get("version", ()))
             if rec["target"] == "corpus":
                 # no interpreter judges these: the writer either raises (a layout it does not have: before 2.0, 3.11+) or writes a file
